@@ -75,9 +75,12 @@ func Assert(p Parser) Parser {
 	}
 }
 
-// Not asserts that the given parser p will fail.
+// Not asserts that the given parser p will fail. It doesn't consume input.
 func Not(p Parser) Parser {
 	return func(input RollbackLexer) ([]Node, *Error) {
+		input.Snapshot()
+		defer input.Rollback()
+
 		_, pErr := p(input)
 		if pErr == nil {
 			return nil, &Error{message: "expecting error"}
